@@ -226,7 +226,14 @@ func genC11(r *prng.R, i int) Scenario {
 // duplicate entry names: the same child listed twice, or two pool members sharing a name
 func genC11Dup(r *prng.R, i int) Scenario {
 	sc := Scenario{ID: fmt.Sprintf("c11dup-%d", i), Family: "c11dup"}
-	switch i % 3 {
+	switch i % 4 {
+	case 3: // old [a,b], new [a,a2]: a2 is a distinct runnable whose String() is a's (blocking Stop)
+		sc.Pool = randPool(r, 3, "S", 5)
+		sc.Pool[2].Name = 0
+		sc.Pool[2].Style = "U"
+		sc.Init = []Entry{{0, 0}, {1, 0}}
+		sc.Ops = []Op{{Op: "run"}, {Op: "wait"}, {Op: "reload", Cb: "some", Cfg: []Entry{{0, 1}, {2, 1}}}, {Op: "wait"},
+			{Op: "stop"}, {Op: "wait"}, {Op: "end"}}
 	case 0: // old [a,b], new [a,a]
 		sc.Pool = randPool(r, 2, "S", 5)
 		sc.Init = []Entry{{0, 0}, {1, 0}}
@@ -258,6 +265,9 @@ func genC09(r *prng.R, i int) Scenario {
 	}
 	cur := randSubset(r, n-1, 1+r.Intn(n-1))
 	sc.Init = seqEntries(r, cur)
+	if r.Chance(1, 5) { // an old child that returns a real error when it is stopped
+		sc.Pool[cur[0]].Exit = "E"
+	}
 	ops := []Op{{Op: "run"}, {Op: "wait"}}
 	if r.Chance(1, 4) { // an earlier unparked reload
 		cur, _ = nextCfg(r, n-1, cur)
@@ -355,5 +365,91 @@ func genStale(i int) Scenario {
 		{Op: "reload", Cb: "some", Cfg: []Entry{{0, 1}}}, {Op: "waitpark"},
 		{Op: "reload", Cb: "some", Cfg: last}, {Op: "waitpark"},
 		{Op: "release"}, {Op: "wait"}, {Op: "stop"}, {Op: "wait"}, {Op: "end"}}
+	return sc
+}
+
+// a child failure racing a membership-changing reload: an OLD child returns a real error when the
+// reload stops it (exit style "E"), the reloader is parked at one of its steps, so Run's
+// failure teardown meets the reload in progress; the new configuration contains a never-started
+// child with a blocking Stop.
+func genErrWin(r *prng.R, i int) Scenario {
+	subs := []string{"Config updated", "Updating config after stopping", "Starting child runnables",
+		"Membership change detected", "All child runnables launched"}
+	sub := subs[i%len(subs)]
+	sc := Scenario{ID: fmt.Sprintf("errwin-%d", i), Family: "errwin"}
+	n := 3
+	sc.Pool = randPool(r, n, "S", 8)
+	sc.Pool[0].Exit = "E"
+	sc.Pool[n-1].Style = "U" // the child added by the reload blocks in Stop until its Run is over
+	if i%4 == 3 {
+		sc.Pool[n-1] = ChildSpec{Name: n - 1, Style: "U", Exit: "F", RK: "P", Nested: true}
+	}
+	sc.Init = []Entry{{0, 0}, {1, 0}}
+	var nc []Entry
+	switch (i / len(subs)) % 3 {
+	case 0:
+		nc = []Entry{{0, 1}, {1, 1}, {2, 1}} // grow
+	case 1:
+		nc = []Entry{{2, 1}} // replace
+	default:
+		nc = []Entry{{1, 1}, {2, 1}} // drop the failing child, add a new one
+	}
+	sc.Ops = []Op{{Op: "run"}, {Op: "wait"}, {Op: "park", Sub: sub},
+		{Op: "reload", Cb: "some", Cfg: nc}, {Op: "waitpark"}, {Op: "release"}, {Op: "wait"},
+		{Op: "stop"}, {Op: "wait"}, {Op: "end"}}
+	return sc
+}
+
+// several children fail at once after a reload that grew the membership beyond the capacity the
+// error channel got at the initial boot (cap = max(1, initial entries)): init m children, reload to
+// n > m, then cap+2 or more (up to all n) children return non-cancellation errors without a pause.
+func genMultiFail(r *prng.R, i int) Scenario {
+	n := 3 + r.Intn(2)
+	m := 1 + r.Intn(n-2) // cap = m, so that cap+2 <= n
+	sc := Scenario{ID: fmt.Sprintf("multifail-%d", i), Family: "multifail", Pool: randPool(r, n, "F", 5)}
+	cur := make([]int, m)
+	for j := range cur {
+		cur[j] = j
+	}
+	sc.Init = seqEntries(r, cur)
+	all := make([]int, n)
+	for j := range all {
+		all[j] = j
+	}
+	ops := []Op{{Op: "run"}, {Op: "wait"}, {Op: "reload", Cb: "some", Cfg: seqEntries(r, all)}, {Op: "wait"}}
+	k := m + 2 + r.Intn(n-m-1) // number of failing children, cap+2 .. n
+	for _, c := range perm(r, n)[:k] {
+		ops = append(ops, Op{Op: "exit", C: c, Err: prng.Pick(r, failShapes)})
+	}
+	ops = append(ops, Op{Op: "wait"}, Op{Op: "stop"}, Op{Op: "wait"}, Op{Op: "end"})
+	sc.Ops = ops
+	return sc
+}
+
+// C18: many restarts and in-place reloads, callback failures in between, then a clean stop; the
+// goroutine census must follow the model at every quiescent point and be zero at the end.
+func genChurn(r *prng.R, i int) Scenario {
+	n := 3 + r.Intn(2)
+	sc := Scenario{ID: fmt.Sprintf("churn-%d", i), Family: "churn", Pool: randPool(r, n, "S", 5)}
+	cur := randSubset(r, n, 1+r.Intn(n))
+	sc.Init = seqEntries(r, cur)
+	if i%7 == 6 {
+		sc.InitCb = prng.Pick(r, []string{"nil", "err"}) // failed boot followed by a clean stop
+	}
+	ops := []Op{{Op: "run"}, {Op: "wait"}}
+	steps := 8 + r.Intn(8)
+	for s := 0; s < steps; s++ {
+		if r.Chance(1, 12) {
+			ops = append(ops, Op{Op: "reload", Cb: prng.Pick(r, []string{"nil", "err"})}, Op{Op: "wait"})
+			break
+		}
+		cur, _ = nextCfg(r, n, cur)
+		ops = append(ops, Op{Op: "reload", Cb: "some", Cfg: seqEntries(r, cur)})
+		if r.Chance(2, 3) {
+			ops = append(ops, Op{Op: "wait"})
+		}
+	}
+	ops = append(ops, Op{Op: "wait"}, Op{Op: prng.Pick(r, []string{"stop", "cancel"})}, Op{Op: "wait"}, Op{Op: "end"})
+	sc.Ops = ops
 	return sc
 }
